@@ -42,8 +42,8 @@ TIE = {
  "C15": "the four `resolve`/`resolve_mut` walks (json and toml), `parse_index`, `Index::from_str`, `Index::for_len` (assign's own walk is not translated)",
  "C08": "`Delete::delete` for serde_json::Value and toml::Value, the `resolve_mut` walks it is built on, `split_back`, `Index::from_str`, `Index::for_len`",
  "C10": "`delete` (both backends), the `resolve`/`resolve_mut` walks, `Index::from_str`, `Index::for_len` (`assign` is not translated)",
- "C06": "Index::from_str and Index::for_len_incl (`assign`/`expand` themselves are not translated)",
- "C07": "Index::from_str and Index::for_len_incl (`assign`/`expand` themselves are not translated)",
+ "C06": "the `expand` helper of `assign` (both backends), Index::from_str and Index::for_len_incl (`assign_value` itself is not translated)",
+ "C07": "the `expand` helper of `assign` (both backends), Index::from_str and Index::for_len_incl (`assign_value` itself is not translated)",
  "C19": "the token, range-slicing, splitting and prefix/suffix functions listed for C03, C12, C13, C04",
 }
 def tie_text(pid):
